@@ -1,5 +1,6 @@
 import Pm.StreamDev
 import Pm.StreamCount
+import Pm.RunX
 /-! Helper lemmas for C15 over whole runs, part 5: **the callbacks of the device phase, a whole pass, any number of passes**. -/
 namespace Pm.Daemon.StreamPf
 open Pm Pm.Client Pm.Daemon Pm.Daemon.ClientPf Pm.Daemon.Isolation
@@ -431,23 +432,17 @@ theorem RunInv.ofDaemonPass {cl : Prop} {H : Hist} {w : W} (h : RunInv cl H w) (
 
 /-! ### any number of passes -/
 
-/-- what the world gets before a pass: the regex engine's answers to the calls the pass will make (the `X` lines of the
-    driver: appended to the pending oracle answers), and the kernel's answers for the pass -/
-abbrev Step := List Pm.Dev2.RxCall × PassIn
+/-- what the world gets before a pass: the kernel's answers for the pass, and the regex engine's answers to the calls the pass
+    will make (the `X` lines of the driver: appended to the pending oracle answers).  This is the shared `Pm.Daemon.PassX` of
+    `Pm/RunX.lean`; `runX` below is the shared `Pm.Daemon.runX` (one definition for C02, C03, C05, C06, C11, C15). -/
+abbrev Step := PassX
 
-/-- the answers are supplied, the pass runs -/
-def passX (w : W) (s : Step) : W := (Pm.Daemon.daemonPass { w with pendingX := w.pendingX ++ s.1 } s.2).1
-
-/-- any number of passes, each with its regex answers -/
-def runX (w : W) (ss : List Step) : W := ss.foldl passX w
+/-- the answers are supplied, the pass runs (`Pm.Daemon.stepX`) -/
+abbrev passX (w : W) (s : Step) : W := stepX w s
 
 /-- without regex answers this is `runPasses` -/
-theorem runX_plain (w : W) (ps : List PassIn) : runX w (ps.map fun p => ([], p)) = ClientPf.runPasses w ps := by
-  unfold runX ClientPf.runPasses
-  rw [List.foldl_map]
-  congr 1
-  funext w p
-  simp [passX]
+theorem runX_runPasses (w : W) (ps : List PassIn) : runX w (ps.map PassX.plain) = ClientPf.runPasses w ps :=
+  Pm.Daemon.runX_plain w ps
 
 /-- a run with its ghost history -/
 def runHist : W × Hist → List Step → W × Hist
@@ -460,8 +455,8 @@ theorem runHist_fst (w : W) (H : Hist) (ss : List Step) : (runHist (w, H) ss).1 
   | cons p r ih => simp only [runHist, runX, List.foldl_cons]; exact ih _ _
 
 theorem RunInv.passX {cl : Prop} {H : Hist} {w : W} (h : RunInv cl H w) (st : Step) : RunInv cl (histNext H w) (passX w st) := by
-  have h' : RunInv cl H { w with pendingX := w.pendingX ++ st.1 } := h.congr rfl rfl rfl rfl rfl rfl rfl
-  exact h'.ofDaemonPass st.2
+  have h' : RunInv cl H (feed w st.rx) := h.congr rfl rfl rfl rfl rfl rfl rfl
+  exact h'.ofDaemonPass st.p
 
 theorem RunInv.run {cl : Prop} (ss : List Step) : ∀ (w : W) (H : Hist), RunInv cl H w →
     RunInv cl (runHist (w, H) ss).2 (runHist (w, H) ss).1 := by
@@ -624,11 +619,11 @@ def p3 : PassIn :=
     envs := [{ fd := 1000, rev := 2, rk := 0, data := [], cap := 1000 },
              { fd := 1001, rev := 3, rk := 0, data := bstr "status a1\nquit\nnodes\n", cap := 7 }] }
 
-def run : List Step := [([], p1), ([], p2), ([], p3)]
+def run : List Step := [⟨p1, []⟩, ⟨p2, []⟩, ⟨p3, []⟩]
 
 /-- the run of `IsolationProof.Two`: both clients ask `status a1`; in pass 4 the device answers client 1's action and the
     regex engine's answers make the `expect` and the `setplugstate` succeed -/
-def run2 : List Step := [([], Two.p1), ([], Two.p2), ([], Two.p3), (Two.xs4, Two.p4)]
+def run2 : List Step := [⟨Two.p1, []⟩, ⟨Two.p2, []⟩, ⟨Two.p3, []⟩, ⟨Two.p4, Two.xs4⟩]
 
 /-- instead of pass 2: client 1 is writable and sends `nodes`, `quit` and once more `nodes` in one read -/
 def pq : PassIn :=
